@@ -10,7 +10,7 @@ def panic_signature(stderr):
     msg = re.sub(r"0x[0-9a-f]+", "0x..", msg)
     msg = re.sub(r"\[\d+:\d+\]|\[-?\d+\]|\d+", "N", msg)
     fn = ""
-    for mm in re.finditer(r"\n(github\.com/cuteLittleDevil/go-jt808/[^\s(]+)\(", stderr):
+    for mm in re.finditer(r"\n(github\.com/cuteLittleDevil/go-jt808/[^\n]+?)\((?:0x[0-9a-f]+|\{|\.\.\.|\))", stderr):
         fn = mm.group(1).replace("github.com/cuteLittleDevil/go-jt808/", "")
         break
     return "server-crash: %s in %s" % (msg[:90], fn or "?")
